@@ -2,7 +2,11 @@
 
 use std::sync::atomic::{AtomicU32, AtomicU64, Ordering::Relaxed};
 
+#[cfg(not(miri))]
 pub const MAX_TAGS: usize = 1 << 16;
+/// Miri tracks every cell of a static individually: keep the tables small there.
+#[cfg(miri)]
+pub const MAX_TAGS: usize = 1 << 11;
 
 static DROPS: [AtomicU32; MAX_TAGS] = [const { AtomicU32::new(0) }; MAX_TAGS];
 static CLONES: [AtomicU32; MAX_TAGS] = [const { AtomicU32::new(0) }; MAX_TAGS];
@@ -25,6 +29,7 @@ static NEXT_BASE: AtomicU32 = AtomicU32::new(1);
 /// Blocks are handed out round-robin over the table; only a handful of
 /// driver instances are alive at any time, so a live block is never reused.
 pub fn reserve(n: u32) -> u32 {
+    let n = if cfg!(miri) { n.min(400) } else { n };
     assert!((n as usize) < MAX_TAGS / 4);
     loop {
         let base = NEXT_BASE.fetch_add(n, Relaxed);
